@@ -325,6 +325,8 @@ def impl(case):
         return _impl_bal(case)
     if k == "std":
         return [_fit(case["rsmi"])] + [_fit(v) for _, v in case.get("variants", [])]
+    if k == "norm":
+        return _norm_run(case["rsmi"])
     raise AssertionError(k)
 
 
@@ -521,6 +523,41 @@ def _oracle_bal(case):
     return []
 
 
+def _norm_run(rsmi):
+    from synkit.Graph.ITS.normalize_aam import NormalizeAAM
+    from synkit.Chem.Reaction.fix_aam import FixAAM
+    out = []
+    for f in (lambda: FixAAM.fix_aam_rsmi(rsmi), lambda: FixAAM().fix_aam_rsmi(rsmi), lambda: NormalizeAAM().fit(rsmi),
+              lambda: NormalizeAAM().fit(rsmi, fix_aam_indice=False), lambda: NormalizeAAM().fit(rsmi, True)):
+        try:
+            out.append(f())
+        except Exception as e:
+            out.append("%s" % type(e).__name__)
+    return out
+
+
+def _oracle_norm(case):
+    """FixAAM.fix_aam_rsmi is a renumbering (+1) of a fully mapped reaction; NormalizeAAM.fit keeps the reaction centre
+    (it makes the hydrogens outside the centre implicit and re-writes the aromatic bonds)"""
+    r = case["rsmi"]
+    I = G9.ref_its(r)
+    if I is None or I.graph["unmapped"] != (0, 0) or not len(I):
+        return []
+    fx, fx2, nm, nm0, nm1 = _norm_run(r)
+    fails = []
+    J = G9.ref_its(fx) if ">>" in fx else None
+    if J is None or not G9.iso(I, J) or fx2 != fx:
+        fails.append(_fail("fixaam-renumbering", "fix_aam_rsmi(%r) = %r / %r is not a renumbering of the mapping" % (r, fx, fx2)))
+    for tag, n in (("fit", nm), ("fit(fix_aam_indice=False)", nm0), ("fit(rsmi, True)", nm1)):
+        K = G9.ref_its(n) if ">>" in n else None
+        if K is None or not G9.iso(G9.ref_rc(I), G9.ref_rc(K)):
+            fails.append(_fail("normalize-centre", "NormalizeAAM.%s of %r = %r does not have an isomorphic reaction centre" % (tag, r, n)))
+            break
+    if nm1 != nm:
+        fails.append(_fail("normalize-centre", "fit(r) = %r but fit(r, True) = %r" % (nm, nm1)))
+    return fails
+
+
 def _oracle_std(case):
     base = _fit(case["rsmi"])
     if base in (None, "ValueError"):
@@ -553,6 +590,8 @@ def oracle(case):
         return _oracle_bal(case)
     if k == "std":
         return _oracle_std(case)
+    if k == "norm":
+        return _oracle_norm(case)
     return []
 
 
@@ -566,7 +605,7 @@ def nontrivial(case, obs):
         return isinstance(obs, list) and obs[0] is not None and obs[0] != "unparsable" and case["mapped"] != case["truth"]
     if k.startswith("bal-"):
         return isinstance(obs, list) and obs[0] in (True, False)
-    return k == "std" and bool(case.get("variants"))
+    return (k == "std" and bool(case.get("variants"))) or k == "norm"
 
 
 def distribution(cases, obss):
@@ -862,6 +901,24 @@ def gen_cases(tier, rng):
                 except Exception:
                     pass
         cases.append(dict(kind="std", rsmi=r, variants=vs, src="%s#%d" % (s, i)))
+    # ---- FixAAM / NormalizeAAM (oracle only), also with three-digit map numbers
+    chosen = (rng.sample(us, 6) + rng.sample(ec, 6)) if q else corp
+    for s, i, r in chosen:
+        cases.append(dict(kind="norm", rsmi=r, src="%s#%d" % (s, i)))
+        if not q or rng.random() < 0.3:
+            cases.append(dict(kind="norm", rsmi=G9.renumber_big(r, rng), src="%s#%d" % (s, i)))
+    # ---- sizes: the largest corpus reaction (>= 100 atoms) and three/four-digit map numbers through every entry point
+    s, i, big = max(corp, key=lambda x: len(R.map_numbers(x[2])))
+    cases += _canon_cases("corpus", big, src="%s#%d" % (s, i), backends=("wl",))
+    cases.append(dict(kind="valid-renum", mapped=G9.renumber_big(big, rng), truth=big, src="%s#%d" % (s, i)))
+    cases.append(dict(kind="bal-corpus", rsmi=big, src="%s#%d" % (s, i)))
+    for s, i, r in rng.sample(us, 3 if q else 30):
+        v = G9.renumber_big(r, rng)
+        cases += _canon_cases("renum", v, orig=r, src="%s#%d" % (s, i), backends=(rng.choice(BACKENDS),))
+        cases.append(dict(kind="valid-renum", mapped=v, truth=r, src="%s#%d" % (s, i)))
+        sw = _swap_of(v, rng)
+        if sw:
+            cases.append(dict(kind="valid-swap-noneq", mapped=sw, truth=r, src="%s#%d" % (s, i)))
     cases += gen_histories(tier, rng, corp)
     return cases
 
